@@ -132,8 +132,7 @@ def term_from_model(h, rng):
     return {"cfg": cfg, "steps": steps}
 
 
-SETTLE = [{"a": "LcRec"}, {"a": "NodeRec"}, {"a": "QAll"}, {"a": "NodeRec"}, {"a": "Tick", "d": 6}, {"a": "NodeRec"},
-          {"a": "InstanceGone"}, {"a": "NodeRec"}, {"a": "LcRec"}, {"a": "LcRec"}]
+SETTLE = [{"a": "Settle"}]
 
 
 def term_paths():
@@ -161,6 +160,12 @@ def term_paths():
     # 3c. registered but never initialized (node not ready), instance vanishes: shortcut, then the claim waits for the node
     P.append(("uninitialized", "registered-uninitialized", term_cfg("-", True, False), [
         {"a": "DeleteClaim"}, {"a": "LcRec"}, {"a": "InstanceVanishes"}, {"a": "LcRec"}, {"a": "NodeRec"}, {"a": "LcRec"}, {"a": "LcRec"}]))
+    # 3d. two Node objects for the one instance: the NodeClaim waits for both, each is finalized on its own
+    D = {"a": "NodeRec", "which": "node-1-dup"}
+    P.append(("dup-node", "registered", term_cfg("p1", False, False), [
+        {"a": "NodeAppears2"}, {"a": "DeleteClaim"}, {"a": "LcRec"}, {"a": "NodeRec"}, dict(D), {"a": "QAll"}, {"a": "PodGone", "pod": "p1"},
+        {"a": "Tick", "d": 6}, {"a": "NodeRec"}, dict(D), {"a": "VolumeDetach", "pod": "p1"}, {"a": "NodeRec"}, {"a": "LcRec"},
+        {"a": "InstanceGone"}, dict(D), {"a": "LcRec"}, {"a": "NodeRec"}, {"a": "LcRec"}, {"a": "LcRec"}]))
     # 4. volume of a pod that cannot be drained (tolerating) does not block; pod stuck terminating
     P.append(("stuck-pod", "registered", term_cfg("p2", False, False), [
         {"a": "PodBinds", "pod": "p2"}, {"a": "DeleteClaim"}, {"a": "LcRec"}, {"a": "NodeRec"}, {"a": "QAll"}, {"a": "NodeRec"},
